@@ -224,6 +224,9 @@ func (h *hist) newParams(r *hx.Rng, lpBig bool) params {
 	if r.Chance(4) {
 		p.Denom = "bad denom!"
 	}
+	if lpBig && r.Chance(8) { // the pool fee is a free field of the creation message
+		p.Fee = []string{"-0.5", "-0.01", "1.5"}[r.Intn(3)]
+	}
 	p.LpOK = sdk.ValidateDenom("lp/"+p.Denom) == nil
 	return p
 }
@@ -693,7 +696,7 @@ func main() {
 	newHist := func(min, max, dur uint64) *hist { return newHistCfg(mkCfg(min, max, dur)) }
 
 	// ---- probes: which of the known defects does this tree have?
-	vPrefix, vZero, vCreate, vStale, vNeg, vUpsert := probes(e, newHist)
+	vPrefix, vZero, vCreate, vStale, vNeg, vUpsert, vFee := probes(e, newHist)
 
 	var coq []string
 	var js []jcase
@@ -810,7 +813,7 @@ func main() {
 		f.WriteString(fmt.Sprintf("Definition U%d : string := %s.\n", i, hx.Str(u)))
 	}
 	f.WriteString("Definition users : list string := [U0; U1; U2; U3; U4].\n")
-	f.WriteString(fmt.Sprintf("Definition tree : variant := mkVariant %s %s %s %s %s %s.\nDefinition T0 : Z := 1700000000.\n", hx.B(vPrefix), hx.B(vZero), hx.B(vCreate), hx.B(vStale), hx.B(vNeg), hx.B(vUpsert)))
+	f.WriteString(fmt.Sprintf("Definition tree : variant := mkVariant %s %s %s %s %s %s %s.\nDefinition T0 : Z := 1700000000.\n", hx.B(vPrefix), hx.B(vZero), hx.B(vCreate), hx.B(vStale), hx.B(vNeg), hx.B(vUpsert), hx.B(vFee)))
 	out.WriteFile("pre.v", f.String())
 	out.WriteFile("cases.txt", strings.Join(coq, "\n")+"\n")
 	out.WriteJSON("meta.json", map[string]string{"case_type": "c20_case", "mismatch_fn": "c20_mismatches tree users T0", "violation_fn": "c20_violations users"})
@@ -820,7 +823,7 @@ func main() {
 		steps += len(j.Steps)
 	}
 	out.WriteJSON("dist.json", map[string]interface{}{"seed": seed, "histories": len(js), "steps": steps, "by_kind": dist,
-		"variant": map[string]bool{"prefix_iteration": vPrefix, "zero_record_blocks_refund": vZero, "creation_bond_unchecked": vCreate, "convert_swaps_into_stale_record": vStale, "negative_creation_bond_accepted": vNeg, "upsert_proposal_rewrites_bookkeeping": vUpsert}, "users": e.ustr})
+		"variant": map[string]bool{"prefix_iteration": vPrefix, "zero_record_blocks_refund": vZero, "creation_bond_unchecked": vCreate, "convert_swaps_into_stale_record": vStale, "negative_creation_bond_accepted": vNeg, "upsert_proposal_rewrites_bookkeeping": vUpsert, "pool_fee_unchecked": vFee}, "users": e.ustr})
 	fmt.Fprintf(os.Stderr, "c20: %d histories, %d steps\n", len(js), steps)
 }
 
@@ -867,6 +870,9 @@ func (h *hist) keeperOps(r *hx.Rng, names []string) {
 		u := r.Intn(3)
 		den := h.lpDenom(n)
 		fee := fees[r.Intn(len(fees))]
+		if d := h.e.k.GetDapp(h.c, n); d.Name != "" && !d.PoolFee.IsNil() && r.Chance(35) {
+			fee = d.PoolFee.String() // what the message handlers pass
+		}
 		switch r.Intn(14) {
 		case 0, 1, 2:
 			h.kswap(u, n, false, []int64{1, 1, 2, 3, 1000, 250000, 7777777}[r.Intn(7)], fee)
@@ -930,7 +936,7 @@ func (h *hist) keeperOps(r *hx.Rng, names []string) {
 }
 
 // probes: three tiny experiments on the real keeper / msg server
-func probes(e *env, newHist func(min, max, dur uint64) *hist) (prefix, zero, create, stale, neg, ups bool) {
+func probes(e *env, newHist func(min, max, dur uint64) *hist) (prefix, zero, create, stale, neg, ups, fee bool) {
 	{
 		h := newHist(1, 10, 1000)
 		e.k.SetUserDappBond(h.c, l2types.UserDappBond{User: e.ustr[0], DappName: "probeab", Bond: coin("ukex", 5)})
@@ -959,6 +965,10 @@ func probes(e *env, newHist func(min, max, dur uint64) *hist) (prefix, zero, cre
 		if h.upsert("probeu", 999, 0, h.t0, p, 0, 0) {
 			ups = e.k.GetDapp(h.c, "probeu").TotalBond.Amount.Int64() == 999
 		}
+	}
+	{
+		h := newHist(1, 10, 1000)
+		fee = h.create(0, "probef", 20000, false, params{Denom: "probef", LpOK: true, Ratio: "1", Fee: "-0.5", Drip: 100})
 	}
 	{
 		h := newHist(1, 10, 100)
